@@ -140,17 +140,24 @@ class Grammar(Generic[_NodeT]):
                 if old_lines == lines:
                     return module_node  # type: ignore[no-any-return]
 
-                new_node = self._diff_parser(
-                    self._pgen_grammar, self._tokenizer, module_node
-                ).update(
-                    old_lines=old_lines,
-                    new_lines=lines
-                )
-                try_to_save_module(self._hashed, file_io, new_node, lines,
-                                   # Never pickle in pypy, it's slow as hell.
-                                   pickling=cache and not is_pypy,
-                                   cache_path=cache_path, read_time=read_time)
-                return new_node  # type: ignore[no-any-return]
+                try:
+                    new_node = self._diff_parser(
+                        self._pgen_grammar, self._tokenizer, module_node
+                    ).update(
+                        old_lines=old_lines,
+                        new_lines=lines
+                    )
+                except RecursionError:
+                    # Very deeply nested code can be parsed (the parser is not
+                    # recursive), but the tree helpers the diff parser relies
+                    # on are. Parse such a file from scratch instead.
+                    pass
+                else:
+                    try_to_save_module(self._hashed, file_io, new_node, lines,
+                                       # Never pickle in pypy, it's slow as hell.
+                                       pickling=cache and not is_pypy,
+                                       cache_path=cache_path, read_time=read_time)
+                    return new_node  # type: ignore[no-any-return]
 
         tokens = self._tokenizer(lines)
 
